@@ -58,6 +58,9 @@ func VerifC11Retained() {
 	sq := symQOS("subqos")
 	rounds := 1 + vChoice("repeat", 2) // a repeated subscription replays again
 	for round := 0; round < rounds; round++ {
+		if round == 1 {
+			sq = symQOS("subqos2") // the repeated subscription may ask for another QoS
+		}
 		vAssert(m.Subscribe(sub, []packet.Subscription{{Topic: f, QOS: sq}}, nil) == nil, "Subscribe")
 		want := 0
 		for j := range rt {
